@@ -53,6 +53,7 @@ fn main() {
       if prop == "C10" || prop == "C11" || prop == "C12" || prop == "C20" { std::process::exit(remapping_loop::explore(prop, secs, seed)); }
       std::process::exit(key_transforms::explore(prop, secs, seed));
     },
+    "anymod" => { std::process::exit(key_transforms::anymod()); },
     "c18" => {
       let seed: u64 = args[2].parse().unwrap(); let budget: u64 = args[3].parse().unwrap();
       std::process::exit(dev_input_rw::c18(seed, budget));
